@@ -1298,6 +1298,9 @@ func init() {
 										hs = structStores(u)
 									}
 								}
+								if len(hs) == 0 && isZeroStruct(x.Val) {
+									continue // the zero descriptor of a ‘not found’ return carries no annotations either
+								}
 								if _, has := hs["Annotations"]; has || len(hs) == 0 {
 									bare = false
 								}
@@ -1687,6 +1690,28 @@ func init() {
 				}
 			}
 		}})
+}
+
+// isZeroStruct: the value is the zero value of a struct type: the constant, or the load of a local that is never written.
+func isZeroStruct(v ssa.Value) bool {
+	v = an.Strip(v)
+	if k, ok := v.(*ssa.Const); ok {
+		_, isStruct := k.Type().Underlying().(*types.Struct)
+		return isStruct && k.Value == nil
+	}
+	if ld, ok := v.(*ssa.UnOp); ok && ld.Op == token.MUL {
+		if al, ok := ld.X.(*ssa.Alloc); ok && al.Referrers() != nil {
+			for _, ref := range *al.Referrers() {
+				switch ref.(type) {
+				case *ssa.UnOp, *ssa.DebugRef:
+				default:
+					return false
+				}
+			}
+			return true
+		}
+	}
+	return false
 }
 
 // fieldOwnerType: for a value loaded from x.f returns the type of x.
